@@ -435,6 +435,9 @@ func (o *OpenAPI3Importer) loadTypeSchema(name string, schema *openapi3.Schema) 
 	setDefined := func(refName string) { o.refMap[refName] = true }
 	switch {
 	case schema.Type.Is(openapi3.TypeArray):
+		if schema.Items == nil {
+			return nil, fmt.Errorf("array type %s has no items", name)
+		}
 		var items Type
 		if childName := o.typeNameFromSchemaRef(schema.Items); childName == OpenAPI_OBJECT {
 			defer o.pushName("obj")()
